@@ -54,6 +54,7 @@ class Target:
     nested_ids: dict[str, int] = field(default_factory=dict)    # name of a nested function -> identity of its function object
     with_externals: dict[str, tuple[int, int]] = field(default_factory=dict)   # receiver text of a `with` -> (enter, exit) externals
     closure: list[str] = field(default_factory=list)   # free variables of a nested function (the enclosing function's parameters), numbered first
+    # "for.pre|body|post|iter|whole": the function must be `<pre>; for x in <iterable>: <body>; <post>` – one piece of it
     part: str | None = None             # "loop_body": the function must be `<name> = <int>; while True: <body>` – translate <body> only
 
 
@@ -311,6 +312,12 @@ class Tr:
                 return pres, f"(Expr.call {num} {self.lst(es)})"
             if f.id == "cast" and len(n.args) == 2:
                 return self.expr(n.args[1])
+            if f.id == "copy" and len(n.args) == 1 and not n.keywords and self.src(n.args[0]) in self.t.containers:
+                return self.expr(n.args[0])      # containers are values here: a shallow copy is the value itself
+            if f.id == "list" and len(n.args) == 1 and not n.keywords and isinstance(n.args[0], ast.Call) \
+                    and isinstance(n.args[0].func, ast.Attribute) and n.args[0].func.attr == "values" \
+                    and self.src(n.args[0].func.value) in self.t.containers:
+                return self.expr(n.args[0])      # `list(d.values())`: the values, in the dict's order
             if f.id == "len" and len(n.args) == 1:
                 p, e = self.expr(n.args[0])
                 return p, f"(Expr.call {B['len']} {self.lst([e])})"
@@ -489,6 +496,15 @@ class Tr:
             return f"(Stmt.setFld {self.t.fields[target.attr]} {e})"
         raise Unrecognised(f"assignment target {self.src(target)}")
 
+    def for_parts(self, s: ast.For) -> tuple[list[str], tuple[int, str], str]:
+        """`for <name> in <iterable>: <body>` over an iterable that evaluates to a list value:
+        (statements evaluating the iterable's effectful parts, (loop variable, iterable expression), body)"""
+        if s.orelse or not isinstance(s.target, ast.Name):
+            raise Unrecognised("for loop of another shape")
+        pre, it = self.expr(s.iter)
+        v = self.local(s.target.id)
+        return pre, (v, it), self.stmts(s.body)
+
     def loop_step(self, w: ast.While) -> str:
         p, c = self.expr(w.test)
         return self.seq(p + [f"(Stmt.ite {c} {self.stmts(w.body)} Stmt.brk)"])
@@ -552,6 +568,9 @@ class Tr:
                 pk, ek = self.expr(tg.slice)
                 pv, ev = self.expr(value)
                 return self.seq(pr + pk + pv + [self.store(tg.value, f"(Expr.call {B['setitem']} {self.lst([er, ek, ev])})")])
+            if isinstance(tg, ast.Name) and isinstance(value, (ast.Name, ast.Attribute)) and self.src(value) in self.t.containers:
+                # `xs = self._items` makes a second name for ONE container; the interpreter's containers are values
+                raise Unrecognised(f"aliasing of the container {self.src(value)}")
             p, e = self.expr(value)
             self.note_alias(tg, value)
             return self.seq(p + [self.store(tg, e)])
@@ -586,6 +605,9 @@ class Tr:
                 return f"(Stmt.loop fuel {self.stmts(s.body)})"
             # `while c: body`  =  `while True: (body if c else break)`
             return f"(Stmt.loop fuel {self.loop_step(s)})"
+        if isinstance(s, ast.For):
+            pre, head, body = self.for_parts(s)
+            return self.seq(pre + [f"(Stmt.forEach {head[0]} {head[1]} {body})"])
         if isinstance(s, (ast.FunctionDef, ast.AsyncFunctionDef)):
             # a nested function definition: the name is bound to a function object (identity = order of definition); its body is
             # a target of its own (`outer.inner`)
@@ -768,5 +790,22 @@ def translate(repo, t: Target) -> tuple[str, dict[str, int]]:
         pieces = {"pre": tr.stmts(inner[:k]), "step": tr.loop_step(inner[k]), "post": tr.stmts(inner[k + 1:]),
                   "tail": tr.stmt(body[1])}      # translated in program order: the numbering of the locals is that of the whole
         return pieces[t.part.split(".")[1]], dict(tr.locals)
+    if t.part is not None and t.part.startswith("for."):
+        # `<pre…>; for <x> in <iterable>: <body>; <post…>` with exactly one top-level `for`; one of the pieces, or the whole
+        # assembled as `seq <pre> (seq (forEach x <iterable> <body>) <post>)`
+        loops = [i for i, x in enumerate(body) if isinstance(x, ast.For)]
+        if len(loops) != 1:
+            raise Unrecognised(f"{t.method}: not exactly one top-level for loop")
+        k = loops[0]
+        pre = tr.stmts(body[:k])
+        ipre, (v, it), lbody = tr.for_parts(body[k])
+        if ipre:
+            raise Unrecognised(f"{t.method}: effectful iterable")
+        post = tr.stmts(body[k + 1:])
+        pieces = {"pre": pre, "body": lbody, "post": post,
+                  "whole": f"(Stmt.seq {pre} (Stmt.seq (Stmt.forEach {v} {it} {lbody}) {post}))", "iter": f"(Stmt.ret {it})"}
+        locs = dict(tr.locals)
+        locs["$loopvar"] = v
+        return pieces[t.part.split(".")[1]], locs
     term = tr.stmts(body)
     return term, dict(tr.locals)
